@@ -26,10 +26,10 @@ def rec_c14_same_rounding(f):
 
 PLANS["C14"] = dict(
     suites=[Suite("lerp", 6000, 400000), Suite("lerp8", 0, 1, chunks_thorough=1)],
-    floors={"quick": {"op:lerp": 3000, "panic:int-range": 5, "op:vec": 100, "op:lerp64": 100}},
+    floors={"quick": {"op:lerp": 3000, "panic:int-range": 5, "op:vec": 100, "op:lerp64": 100, "op:quat": 250, "op:dquat": 250}},
     kernel_modules=["MinaKernel"],
     recognisers={"c14_same_rounding": rec_c14_same_rounding},
-    assumptions=["values exactly representable in f32 (the property's own hypothesis); Quat/DQuat delegate to glam's own lerp and are not modelled"],
+    assumptions=["values exactly representable in f32 (the property's own hypothesis)"],
 )
 
 
